@@ -64,7 +64,8 @@ Theorem C14_sections_join_with_coincident_edges :
 Proof. intros; eapply sections_join; eassumption. Qed.
 Print Assumptions C14_sections_join_with_coincident_edges.
 
-(* the asymmetric branch as written does not end on its own tip line (recorded finding) *)
+(* the asymmetric branch as it was written before fix 6265a26 (slope over b/2) did not end on its own tip line
+   (finding F08, fixed; the model member is kept so that the refutation stays checked) *)
 Theorem C14_sections_join_asym_refuted :
   forall nx (root : @Edge R) (s : @Sec R) i, s_span s <> 0 ->
     let root_c := Rabs (e_le root - e_te root) in
@@ -75,3 +76,11 @@ Theorem C14_sections_join_asym_refuted :
     (tx <> rx -> sec_x_right_as_written nx root s i (e_y root + s_span s) <> tx).
 Proof. exact sections_join_asym_refuted. Qed.
 Print Assumptions C14_sections_join_asym_refuted.
+
+(* the asymmetric branch as repaired: sections right of the root share their edges too, for any number of sections *)
+Theorem C14_sections_right_of_root_join_with_coincident_edges :
+  forall nx (root : @Edge R) (s s' : @Sec R) i, (2 <= nx)%nat -> s_span s <> 0 ->
+    e_te (sec_tip_right nx root s) <= e_le (sec_tip_right nx root s) -> (i < nx)%nat ->
+    sec_x_right nx (next_edge_right nx root s) s' i (e_y (next_edge_right nx root s)) = sec_x_right nx root s i (e_y root + s_span s).
+Proof. intros; eapply sections_join_right; eassumption. Qed.
+Print Assumptions C14_sections_right_of_root_join_with_coincident_edges.
